@@ -42,7 +42,8 @@ def load_variants() -> List[dict]:
         out.append({"prop": pr, "id": "global/receiver-renamed-this", "kind": "B", "rule": "", "transform": "rename_self"})
         out.append({"prop": pr, "id": "global/comparison-operands-flipped", "kind": "B", "rule": "", "transform": "flip_comparisons"})
         for tname in ("return_via_local", "split_tuple_assign", "expand_augassign", "listcomp_to_loop", "drop_else_after_return",
-                      "explaining_temps", "guard_continue", "ifexp_to_if", "if_to_ifexp", "for_to_while", "keyword_args"):
+                      "explaining_temps", "guard_continue", "ifexp_to_if", "if_to_ifexp", "for_to_while", "keyword_args",
+                      "swap_if_branches", "unguard_continue", "name_constants"):
             out.append({"prop": pr, "id": f"global/{tname.replace('_', '-')}", "kind": "B", "rule": "", "transform": tname})
     # behaviour-preserving refactorings written by independent sub-agents (selfval/benign_patches/*.diff): every check must stay silent on each
     bp = VERIF / "selfval" / "benign_patches"
